@@ -176,8 +176,19 @@ def guarded {σ : Type} (valid : Bool) (modelOut : String) (impl : Impl σ)
     let (agree, cls) := okCase h ev pop
     verdict (agree && modelOut == "ok") (cls == "-" || !valid) cls (.atom modelOut)
 
-/-- Individuals whose solution was handed out mutably / newly created carry no objective value. -/
-def allUneval (ev : List Bool) : Bool := ev.all (!·)
+/-- An output individual may still carry its objective value only if its solution is identical to the
+input individual at the same index (nothing was changed: the value is not stale). Touched or newly
+created individuals must be unevaluated. Tie-agnostic: un-evaluating everything is equally accepted. -/
+def evAligned {σ : Type} (eq : σ → σ → Bool) (inp out : List σ) (ev : List Bool) : Bool :=
+  ev.length == out.length &&
+  (List.range out.length).all fun i =>
+    !(ev.getD i false) || (match inp[i]?, out[i]? with | some x, some y => eq x y | _, _ => false)
+
+/-- Recombination: an evaluated output individual must be one of the input solutions (a parent handed through). -/
+def evMember {σ : Type} (eq : σ → σ → Bool) (inp out : List σ) (ev : List Bool) : Bool :=
+  ev.length == out.length &&
+  (List.range out.length).all fun i =>
+    !(ev.getD i false) || (match out[i]? with | some y => inp.any (eq · y) | none => false)
 
 -- ---------------------------------------------------------------- rate-gated mutations
 def realMutation (kind : String) (p1 p2 rm : Float) (inp : List (List Float)) (impl : Impl (List Float)) : Verdict :=
@@ -191,8 +202,15 @@ def realMutation (kind : String) (p1 p2 rm : Float) (inp : List (List Float)) (i
     let shape := sameShape inp out
     let rmZero := rm == 0.0
     let rmOne := rm == 1.0
+    -- at rate 1 the gate fires on EVERY coordinate; a coordinate that came out bit-identical is explained as
+    -- "fired, drew a zero change" only where that is possible at all (σ = 0, bound = 0, empty domain) — for a
+    -- proper distribution the chance of an exactly-zero change is below 1e-14 per coordinate
+    let zeroChangePossible := match kind with
+      | "normal" => p1 == 0.0
+      | "uniform" => p1 == 0.0
+      | _ => !(p1 < p2)
     let perSol := (inp.zip out).all fun (x, y) =>
-      let mask := (x.zip y).map fun (a, b) => rmOne || a.toBits != b.toBits
+      let mask := (x.zip y).map fun (a, b) => (rmOne && zeroChangePossible) || a.toBits != b.toBits
       let modelOut : List Float := match kind with
         | "spread" => resample mask y x
         | _ => gated mask y x        -- `x + delta` with delta := the observed difference
@@ -205,8 +223,8 @@ def realMutation (kind : String) (p1 p2 rm : Float) (inp : List (List Float)) (i
           | _ => true)
     let cls := if !shape then "dimension"
       else if rmZero && !((inp.zip out).all fun (x, y) => bitsEq x y) then "rate-zero-changed"
-      else if !allUneval ev then "evaluated" else "-"
-    (shape && perSol && h == 1 && allUneval ev, cls)
+      else if !evAligned bitsEq inp out ev then "evaluated" else "-"
+    (shape && perSol && h == 1 && evAligned bitsEq inp out ev, cls)
 
 def bitMutation (kind : String) (p rm : Float) (inp : List (List Bool)) (impl : Impl (List Bool)) : Verdict :=
   let valid := unit01 rm && (kind == "bitflip" || unit01 p)
@@ -221,8 +239,8 @@ def bitMutation (kind : String) (p rm : Float) (inp : List (List Bool)) (impl : 
       (kind == "bitflip" || ((y.zip mask).all fun (b, m) => !m || ((p != 0.0 || !b) && (p != 1.0 || b))))
     let cls := if !shape then "dimension"
       else if rmZero && inp != out then "rate-zero-changed"
-      else if !allUneval ev then "evaluated" else "-"
-    (shape && perSol && h == 1 && allUneval ev, cls)
+      else if !evAligned (· == ·) inp out ev then "evaluated" else "-"
+    (shape && perSol && h == 1 && evAligned (· == ·) inp out ev, cls)
 
 -- ---------------------------------------------------------------- permutation mutations
 /-- Source positions: `σ[k]` = where the element now at `k` was (unique tags). -/
@@ -241,7 +259,7 @@ def recoverCycle (inp out : List Nat) (k : Nat) : List Nat :=
 def permClass (inp out : List (List Nat)) (ev : List Bool) : String :=
   if !sameShape inp out then "dimension"
   else if !((inp.zip out).all fun (x, y) => y.isPerm x) then "not-permutation"
-  else if !allUneval ev then "evaluated" else "-"
+  else if !evAligned (· == ·) inp out ev then "evaluated" else "-"
 
 def permMutation (kind : String) (k : Nat) (rm : Float) (inp : List (List Nat)) (impl : Impl (List Nat)) : Verdict :=
   let dim := (inp.head?.map List.length).getD 0
@@ -257,7 +275,7 @@ def permMutation (kind : String) (k : Nat) (rm : Float) (inp : List (List Nat)) 
         let perSol := (inp.zip out).all fun (x, y) =>
           let w := recoverCycle x y k
           swapLegal k x.length w && (match swapMutation k x w with | .ok r => r == y | _ => false)
-        (sameShape inp out && perSol && h == 1 && allUneval ev, permClass inp out ev)
+        (sameShape inp out && perSol && h == 1 && evAligned (· == ·) inp out ev, permClass inp out ev)
   | "scramble" =>
     let valid := unit01 rm
     guarded valid (outcomeTag (rateExec (toParam rm) ())) impl fun h ev out =>
@@ -266,7 +284,7 @@ def permMutation (kind : String) (k : Nat) (rm : Float) (inp : List (List Nat)) 
         scrambleLegal (rm == 0.0) x.length σ && scrambleMutation x σ == some y
       let cls := permClass inp out ev
       let cls := if cls == "-" && rm == 0.0 && inp != out then "rate-zero-changed" else cls
-      (sameShape inp out && perSol && h == 1 && allUneval ev, cls)
+      (sameShape inp out && perSol && h == 1 && evAligned (· == ·) inp out ev, cls)
   | "inversion" =>
     guarded true "ok" impl fun h ev out =>
       let perSol := (inp.zip out).all fun (x, y) =>
@@ -274,14 +292,16 @@ def permMutation (kind : String) (k : Nat) (rm : Float) (inp : List (List Nat)) 
         let cands : List (Option (Nat × Nat)) :=
           none :: ((List.range n).flatMap fun s => (List.range n).map fun e => some (s, e))
         cands.any fun w => inversionLegal n w && inversionMutation x w == some y
-      (sameShape inp out && perSol && h == 1 && allUneval ev, permClass inp out ev)
+      (sameShape inp out && perSol && h == 1 && evAligned (· == ·) inp out ev, permClass inp out ev)
   | "insertion" =>
-    guarded true "ok" impl fun h ev out =>
+    -- an empty solution: `gen_range(0..0)` panics (no witness exists; outside any documented domain)
+    let emptySol := inp.any fun x => x.isEmpty && (insertionMutation x (0, 0)).isNone
+    guarded (!emptySol) (if emptySol then "panic" else "ok") impl fun h ev out =>
       let perSol := (inp.zip out).all fun (x, y) =>
         let n := x.length
         ((List.range n).flatMap fun el => (List.range n).map fun i => (el, i)).any fun w =>
           insertionLegal n w && insertionMutation x w == some y
-      (sameShape inp out && perSol && h == 1 && allUneval ev, permClass inp out ev)
+      (sameShape inp out && perSol && h == 1 && evAligned (· == ·) inp out ev, permClass inp out ev)
   | _ =>
     guarded true "ok" impl fun h ev out =>
       let perSol := (inp.zip out).all fun (x, y) =>
@@ -290,7 +310,7 @@ def permMutation (kind : String) (k : Nat) (rm : Float) (inp : List (List Nat)) 
           none :: ((List.range n).flatMap fun s => (List.range n).flatMap fun e =>
             (List.range (n + 1)).map fun i => some (s, e, i))
         cands.any fun w => translocationLegal n w && translocationMutation x w == some y
-      (sameShape inp out && perSol && h == 1 && allUneval ev, permClass inp out ev)
+      (sameShape inp out && perSol && h == 1 && evAligned (· == ·) inp out ev, permClass inp out ev)
 
 -- ---------------------------------------------------------------- recombination frame
 /-- Explains the output population pair by pair. `accept p1 p2 c1 c2?` decides whether the
@@ -369,11 +389,11 @@ def recNat (kind : String) (n : Nat) (pc : Float) (both zero : Bool) (inp : List
     -- the property: probability 0 never crosses, probability 1 always does
     let q := parseFrame propAccept both (pc ≥ 1.0) (pc ≤ 0.0) inp out
     let cls :=
-      if q.isSome then (if allUneval ev then "-" else "evaluated")
+      if q.isSome then (if evMember (· == ·) inp out ev then "-" else "evaluated")
       else if pc ≤ 0.0 && (parseFrame propAccept both false false inp out).isSome then "crossed-at-pc0"
       else if (parseFrame (fun _ _ _ _ => true) both false false inp out).isSome then "wrong-value"
       else "count"
-    verdict (m.isSome && h == 1 && allUneval ev) (cls == "-" || !valid) cls
+    verdict (m.isSome && h == 1 && evMember (· == ·) inp out ev) (cls == "-" || !valid) cls
       (match m with | some fl => .list (fl.map ofBool) | none => .atom "unexplained")
 
 def aeq (x y : Float) : Bool := (x - y).abs ≤ 1e-9 * (1 + max x.abs y.abs)
@@ -407,11 +427,11 @@ def recArith (pc : Float) (both zero : Bool) (inp : List (List Float)) (impl : I
     let m := @parseFrame _ beq modelAccept both mustCross mustNot inp out
     let q := @parseFrame _ beq propAccept both (pc ≥ 1.0) (pc ≤ 0.0) inp out
     let cls :=
-      if q.isSome then (if allUneval ev then "-" else "evaluated")
+      if q.isSome then (if evMember bitsEq inp out ev then "-" else "evaluated")
       else if pc ≤ 0.0 && (@parseFrame _ beq propAccept both false false inp out).isSome then "crossed-at-pc0"
       else if (@parseFrame _ beq (fun _ _ _ _ => true) both false false inp out).isSome then "wrong-value"
       else "count"
-    verdict (m.isSome && h == 1 && allUneval ev) (cls == "-") cls
+    verdict (m.isSome && h == 1 && evMember bitsEq inp out ev) (cls == "-") cls
       (match m with | some fl => .list (fl.map ofBool) | none => .atom "unexplained")
 
 -- ---------------------------------------------------------------- differential evolution
@@ -431,20 +451,26 @@ def deMut (y : Nat) (f : Float) (inp : List (List Float)) (impl : Impl (List Flo
   | .ok h ev out =>
     let formatOk := inp.length % (y * 2 + 1) == 0
     let m := deMutation y f inp
-    let agree := ctorOk && h == 1 && allUneval ev && (match m with | .ok r => popAeq r out | _ => false)
+    -- a base that came out bit-identical (f = 0 or equal difference vectors) may keep its value
+    let bases := (List.range out.length).map fun i => inp.getD (i * (y * 2 + 1)) []
+    let evOk := evAligned bitsEq bases out ev
+    let agree := ctorOk && h == 1 && evOk && (match m with | .ok r => popAeq r out | _ => false)
     let dim := (inp.head?.map List.length).getD 0
     let cls := if !formatOk then "accepted-bad-format"
       else if out.length != inp.length / (y * 2 + 1) then "count"
       else if out.any (·.length != dim) then "dimension"
-      else if !allUneval ev then "evaluated" else "-"
+      else if !evOk then "evaluated" else "-"
     verdict agree (cls == "-" || !documented) cls (match m with | .ok r => .list (r.map ofFloats) | _ => .atom "err")
 
 def deCx (kind : String) (pc : Float) (dim : Nat) (pops : List (List (List Float))) (impl : Impl (List Float)) : Verdict :=
   match pops with
   | [base, mutants] =>
+    -- a zero-dimensional problem: `gen_range(0..0)` panics as soon as there is a pair (outside any documented domain)
+    let z : List Float := List.replicate dim 0.0
+    let dimZeroPanic := (deCrossExec dim (List.replicate dim false) z z).isNone && min mutants.length base.length > 0
     match impl with
     | .err _ => verdict false false "err" (.atom "ok")
-    | .panic => verdict false false "panic" (.atom "ok")
+    | .panic => verdict dimZeroPanic dimZeroPanic "panic" (.atom (if dimZeroPanic then "panic" else "ok"))
     | .ok h ev out =>
       let pcZero := pc ≤ 0.0
       let pcOne := pc ≥ 1.0
@@ -453,14 +479,15 @@ def deCx (kind : String) (pc : Float) (dim : Nat) (pops : List (List (List Float
       let paired := ((mutants.zip base).zip out).all fun ((m, b), o) =>
         let mask := (o.zip b).map fun (x, y) => x.toBits == y.toBits
         let legal := if kind == "bin" then deBinLegal pcZero pcOne dim mask else deExpLegal pcZero pcOne dim mask
-        legal && (match deCross dim mask m b with | some r => bitsEq r o | none => false)
+        legal && (match deCrossExec dim mask m b with | some r => bitsEq r o | none => false)
       let extras := ((mutants.drop k).zip (out.drop k)).all fun (m, o) => bitsEq m o
       let positionwise := ((mutants.zip base).zip out).all fun ((m, b), o) =>
         (o.zip (m.zip b)).all fun (x, u, v) => x.toBits == u.toBits || x.toBits == v.toBits
+      let evOk := evAligned bitsEq mutants out ev
       let cls := if !shape then "dimension" else if h != 2 then "stack"
         else if !(positionwise && extras) then "wrong-value"
-        else if !allUneval ev then "evaluated" else "-"
-      verdict (shape && paired && extras && h == 2 && allUneval ev) (cls == "-") cls (.atom "ok")
+        else if !evOk then "evaluated" else "-"
+      verdict (shape && paired && extras && h == 2 && evOk && !dimZeroPanic) (cls == "-") cls (.atom "ok")
   | _ =>
     -- fewer than two populations: binomial returns Err, exponential panics (`pop()` / `current()`)
     let expected : String := if kind == "bin" then "err" else "panic"
@@ -551,12 +578,134 @@ def component (tag : String) (args : List Sexp) (impl : Sexp) : Option Verdict :
     pure (deCx kind (← float? pc) (← nat? dim) (← pops.mapM (popOf floats?)) (← parseImpl floats? impl))
   | _, _ => none
 
+/-- The model's value of a parameter back on the wire. -/
+def ofParam : Param Float → Float
+  | .fin x => x
+  | .posInf => 1.0 / 0.0
+  | .negInf => -1.0 / 0.0
+  | .nan => 0.0 / 0.0
+
+def mutCtor? : String → Option MutCtor
+  | "new" | "new_with_id" | "from_params" => some .new
+  | "new_dev" => some .newDev
+  | "new_bound" => some .newBound
+  | "new_full" => some .newFull
+  | "new_uniform" => some .newUniform
+  | "new_uniform_full" => some .newUniformFull
+  | _ => none
+
+def recCtor? : String → Option RecCtor
+  | "new" | "from_params" => some .new
+  | "new_insert_single" => some .newInsertSingle
+  | "new_insert_both" => some .newInsertBoth
+  | _ => none
+
+/-- Which constructors each component has. -/
+def ctorExists (inner : String) (c : MutCtor) : Bool :=
+  match inner, c with
+  | _, .new => true
+  | "mut-normal", .newDev => true
+  | "mut-uniform", .newBound => true
+  | "mut-spread", .newFull | "pmut-scramble", .newFull | "mut-bits", .newFull => true
+  | "mut-bits", .newUniform | "mut-bits", .newUniformFull => true
+  | _, _ => false
+
+/-- `(via CTOR inner)`: the parameters the constructor STORES according to the model's table replace
+the inner case's arguments; the inner case is then judged as usual. -/
+def viaArgs (ctor inner : String) (ia : List Sexp) : Option (List Sexp) :=
+  match inner, ia with
+  | "mut-normal", [p, rm, seed, pop] | "mut-uniform", [p, rm, seed, pop]
+  | "mut-bitflip", [p, rm, seed, pop] | "mut-bits", [p, rm, seed, pop] => do
+    let c ← mutCtor? ctor
+    if !ctorExists inner c then none
+    let (p', rm') := mutCtorParams (0.5 : Float) c (← float? p) (← float? rm)
+    pure [ofFloat p', ofFloat rm', seed, pop]
+  | "mut-spread", [lo, hi, rm, seed, pop] => do
+    let c ← mutCtor? ctor
+    if !ctorExists inner c then none
+    let (_, rm') := mutCtorParams (0.5 : Float) c 0.0 (← float? rm)
+    pure [lo, hi, ofFloat rm', seed, pop]
+  | "pmut-scramble", [rm, seed, pop] => do
+    let c ← mutCtor? ctor
+    if !ctorExists inner c then none
+    let (_, rm') := mutCtorParams (0.5 : Float) c 0.0 (← float? rm)
+    pure [ofFloat rm', seed, pop]
+  | "rec-npoint", [n, pc, both, seed, pop] | "rec-uniform", [n, pc, both, seed, pop]
+  | "rec-cycle", [n, pc, both, seed, pop] | "rec-arith", [n, pc, both, seed, pop] => do
+    let c ← recCtor? ctor
+    pure [n, pc, ofBool (recCtorBoth c (← bool? both)), seed, pop]
+  | _, _ => if ctor == "new" || ctor == "from_params" then some ia else none
+
+def optFloat? : Sexp → Option (Option Float)
+  | .atom "-" => some none
+  | s => (float? s).map some
+
+/-- `(adapt MODE (set S R) inner)`: `init` stores the constructor's values, the harness overwrites the
+states, `execute` must follow the STATE: the effective parameters come from the model's `mutAdapt`. -/
+def adaptArgs (s r : Option Float) (inner : String) (ia : List Sexp) : Option (List Sexp) :=
+  let eff := fun (cs cr : Float) (s : Option Float) =>
+    let st := mutAdapt (mutInit (toParam cs) (toParam cr)) (s.map toParam) (r.map toParam)
+    (ofParam st.strength, ofParam st.rate)
+  match inner, ia with
+  | "mut-normal", [p, rm, seed, pop] | "mut-uniform", [p, rm, seed, pop] => do
+    let (p', rm') := eff (← float? p) (← float? rm) s
+    pure [ofFloat p', ofFloat rm', seed, pop]
+  | "mut-bitflip", [p, rm, seed, pop] | "mut-bits", [p, rm, seed, pop] => do
+    let (_, rm') := eff 0.0 (← float? rm) none
+    pure [p, ofFloat rm', seed, pop]
+  | "mut-spread", [lo, hi, rm, seed, pop] => do
+    let (_, rm') := eff 0.0 (← float? rm) none
+    pure [lo, hi, ofFloat rm', seed, pop]
+  | "pmut-scramble", [rm, seed, pop] => do
+    let (_, rm') := eff 0.0 (← float? rm) none
+    pure [ofFloat rm', seed, pop]
+  | _, _ => none
+
+/-- `mutation()` with the harness's `TagMutation` (reverse / rotate / keep; fails on gene `fail`). -/
+def tagMutate (kind fail : Nat) (sol : List Nat) : Option (List Nat) :=
+  if sol.contains fail then none
+  else some (match kind with | 0 => sol.reverse | 1 => sol.drop 1 ++ sol.take 1 | _ => sol)
+
+def mutDefault (kind fail : Nat) (pops : List (List (List Nat))) (impl : Sexp) : Option Verdict := do
+  let stackOf := fun (st : List (List (List Nat))) => Sexp.list (.atom "stack" :: st.map fun p => .list (.atom "pop" :: p.map ofNats))
+  let model := match mutationRun (tagMutate kind fail) pops.reverse with
+    | none => Sexp.atom "panic"
+    | some (ok, st) => .list [.atom (if ok then "ok" else "err"), stackOf st]
+  -- O: when every `mutate` succeeds the population is put back with the same number of individuals and the
+  -- stack keeps its height; the `Err` path (population dropped) is outside the wording of the property
+  let failing := (pops.getLast?.getD []).any fun s => (tagMutate kind fail s).isNone
+  let holds := failing || pops.isEmpty || (match impl with
+    | .list [.atom "ok", .list (.atom "stack" :: st)] =>
+      st.length == pops.length && (match st.head? with
+        | some (.list (.atom "pop" :: top)) => top.length == (pops.getLast?.getD []).length
+        | _ => false)
+    | _ => false)
+  pure (verdict (model.beq impl) holds "count" model)
+
+def c13Ext (component : String → List Sexp → Sexp → Option Verdict) (tag : String) (args : List Sexp) (impl : Sexp) :
+    Option Verdict :=
+  match tag, args with
+  | "via", [.atom ctor, .list (.atom inner :: ia)] => do
+    component inner (← viaArgs ctor inner ia) impl
+  | "adapt", [.atom m, st, .list [.atom "via", .atom ctor, .list (.atom inner :: ia)]] => do
+    -- constructor first, adaptation on top of what it stored
+    let (s, r) ← match st with
+      | .list [.atom "set", s, r] => do pure ((← optFloat? s), (← optFloat? r))
+      | _ => none
+    let _ := m
+    component inner (← adaptArgs s r inner (← viaArgs ctor inner ia)) impl
+  | "adapt", [.atom _, .list [.atom "set", s, r], .list (.atom inner :: ia)] => do
+    component inner (← adaptArgs (← optFloat? s) (← optFloat? r) inner ia) impl
+  | "mutdefault", kind :: fail :: pops => do
+    mutDefault (← nat? kind) (← nat? fail) (← pops.mapM (popOf nats?)) impl
+  | _, _ => component tag args impl
+
 def c13 (input implOut : Sexp) : Option Verdict :=
   match input with
   | .list (.atom tag :: args) =>
     match helper tag args implOut with
     | some v => some v
-    | none => component tag args implOut
+    | none => c13Ext component tag args implOut
   | _ => none
 
 end C13
